@@ -531,6 +531,7 @@ def detect_stream(ctx):
     from pyiga import assemble, bspline, geometry
     rng = ctx.rng
     n_cases = 10 if ctx.tier == 'quick' else 80
+    cases = []
     for case in range(n_cases):
         dim = 2 if rng.random() < 0.75 else 3
         grid = [int(rng.integers(1, 3)) for _ in range(dim)]
@@ -551,13 +552,71 @@ def detect_stream(ctx):
             patches.append((kvs, geo)); origin.append(cell); revs.append(rev)
         perm = [int(v) for v in rng.permutation(len(patches))]
         patches = [patches[k] for k in perm]
-        key = ('detect', dim, tuple(grid), p, nspans, tuple(perm))
+        cases.append((patches, ('detect', dim, tuple(grid), p, nspans, tuple(perm)),
+                      {'dim': dim, 'grid': grid, 'degree': p, 'nspans': nspans, 'perm': perm, 'reversed_axes_per_cell': revs,
+                       'how': 'grid of translated unit squares/cubes with randomly reversed axes; detect_interfaces(patches); Multipatch(patches, automatch=True)'}))
+
+    # closed rings of k sectors (2-D) and their extrusions (3-D).  For k = 2 the two half rings share TWO faces (a periodic
+    # strip of two patches), so `_find_matching_boundaries` has to return both interfaces of the pair.
+    def sector(k, j, dim3):
+        th = 2 * np.pi / k
+        c1 = np.array([0.0, 2.0]) if k == 2 else np.array([np.cos(th / 2), np.sin(th / 2)]) / np.cos(th / 2)
+        c = np.array([(1.0, 0.0), tuple(c1), (np.cos(th), np.sin(th))])
+        if k == 2:
+            c[2] = (-1.0, 0.0)
+            R = np.eye(2) if j == 0 else -np.eye(2)          # exact rotation by 180 degrees
+        else:
+            R = np.array([[np.cos(j * th), -np.sin(j * th)], [np.sin(j * th), np.cos(j * th)]])
+        c = c @ R.T
+        r = np.array([1.0, 2.0])
+        co = r[None, :, None] * c[:, None, :]                # (3, 2, 2): angular x radial x (x, y)
+        kvg = [bspline.make_knots(2, 0.0, 1.0, 1), bspline.make_knots(1, 0.0, 1.0, 1)]
+        if dim3:
+            z = np.array([0.0, 1.0])
+            co3 = np.zeros((3, 2, 2, 3))
+            co3[..., :2] = co[:, :, None, :]
+            co3[..., 2] = z[None, None, :]
+            co = co3
+            kvg.append(bspline.make_knots(1, 0.0, 1.0, 1))
+        return kvg, co
+
+    n_rings = 8 if ctx.tier == 'quick' else 60
+    for case in range(n_rings):
+        k = 2 if case % 2 == 0 else int(rng.integers(3, 6))
+        dim3 = bool(rng.random() < 0.3)
+        dim = 3 if dim3 else 2
+        degs = [int(rng.integers(1, 3)) for _ in range(dim)]
+        spans = [int(rng.integers(1, 4)) for _ in range(dim)]
+        patches, desc = [], []
+        # 3-D: one axis order for all sectors (join_boundaries can express flips of the face axes, not their exchange)
+        axes3 = [int(a) for a in rng.permutation(dim)]
+        for j in range(k):
+            kvg, co = sector(k, j, dim3)
+            axes = axes3 if dim3 else ([int(a) for a in rng.permutation(dim)] if rng.random() < 0.5 else list(range(dim)))
+            rev = [bool(rng.random() < 0.35) for _ in range(dim)]
+            co = np.transpose(co, axes + [dim])
+            kvg = [kvg[a] for a in axes]
+            for a, r_ in enumerate(rev):
+                if r_:
+                    co = np.flip(co, axis=a)
+            geo = bspline.BSplineFunc(tuple(kvg), np.ascontiguousarray(co))
+            kvs = tuple(bspline.make_knots(degs[a], 0.0, 1.0, spans[a]) for a in axes)
+            patches.append((kvs, geo)); desc.append({'sector': j, 'axis_order': axes, 'reversed': rev})
+        perm = [int(v) for v in rng.permutation(k)]
+        patches = [patches[q] for q in perm]
+        cases.append((patches, ('ring-detect', k, dim, tuple(degs), tuple(spans), tuple(perm), repr(desc)),
+                      {'complex': 'closed ring of %d sectors%s (k = 2: the two half rings share two faces)' % (k, ', extruded in z' if dim3 else ''),
+                       'k': k, 'dim': dim, 'degrees': degs, 'nspans': spans, 'perm': perm, 'sectors': desc,
+                       'how': 'sector j = rotation by 2*pi*j/k of a quadratic-arc x linear-radius B-spline patch, axes permuted/reversed; '
+                              'detect_interfaces(patches); Multipatch(patches, automatch=True)'}))
+        ctx.count('detect ring k=%d' % k)
+
+    for (patches, key, replay) in cases:
+        dim = patches[0][1].sdim
         ctx.case(key, nontrivial=len(patches) > 1)
         ctx.count('detect dim=%d' % dim)
         bad = None
         key_bad = 'mp-detect'
-        replay = {'dim': dim, 'grid': grid, 'degree': p, 'nspans': nspans, 'perm': perm, 'reversed_axes_per_cell': revs,
-                  'how': 'grid of translated unit squares/cubes with randomly reversed axes; detect_interfaces(patches); Multipatch(patches, automatch=True)'}
         try:
             import networkx as nx
             connected, interfaces = assemble.detect_interfaces(patches)
@@ -580,7 +639,12 @@ def detect_stream(ctx):
             if not connected and len(patches) > 1:
                 bad = 'detect_interfaces reports a disconnected patch graph for a connected grid'
             elif {frozenset(c) for c in nx.connected_components(G)} != {frozenset(c) for c in phys.values()}:
-                bad = 'closure of the detected interfaces differs from the physical coincidence of Greville points'
+                bad = ('closure of the detected interfaces differs from the physical coincidence of Greville points: detected %d interfaces; '
+                       '%d geometric classes' % (len(calls), len(phys)))
+                try:
+                    bad += '; Multipatch(patches, automatch=True).numdofs == %d' % int(assemble.Multipatch(patches, automatch=True).numdofs)
+                except Exception as ex:
+                    bad += '; automatch raised ' + type(ex).__name__
             else:
                 # (b) the automatch object glues exactly that closure (same model-free oracle as the abstract histories)
                 M = assemble.Multipatch(patches, automatch=True)
